@@ -94,7 +94,12 @@ def theorem_forms(ctx, res):
     asts = []
     for i in range(n):
         nc = rng.choice([1, 2, 3, 5, 9, 17, 40]) if i % 6 == 0 else None
-        t = G.gen_table(rng, ncols=nc, constraints=False, name=rng.choice(G.TABLE_NAMES))
+        t = G.gen_table(rng, ncols=nc, constraints=False, name=rng.choice(G.TABLE_NAMES + ["order", "Type", "COMMENT", "sequence", "index"]),
+                        kw_names=(i % 3 == 0), kw_refs=(i % 2 == 0))
+        if i % 9 == 0:                     # keyword names in other letter cases, and the rejected ones (counted as not_wf)
+            for c in t["cols"]:
+                if rng.random() < 0.5:
+                    c["name"] = rng.choice(["COMMENT", "Order", "DEFAULT", "references", "Update", "unique", "check", "KEY", "with"])
         if i % 7 == 0:
             for c in t["cols"]:            # stress: options repeated / in long chains, several references
                 extra = [G.gen_column(rng, "z")["opts"] for _ in range(2)]
